@@ -12,6 +12,30 @@ from common import Inconclusive, WORK, VERIF
 LEVEL = "exploration"
 
 
+def published_helpers(chk):
+    """callbacks and iterators as a C user builds them with the helpers of the published header
+    (COLLECT_CB, COLLECT_CB_INTO_ARR, COUNT_CB, BUF_ITER_SPEC), driven the way the Rust side drives them"""
+    import bgrun
+    from bgrun import emit
+    binary = bgrun.tool()
+    n = 0
+    for name, model in [("plugin-api", emit.plugin_api_model())] + [("h%d" % i, emit.random_model(chk.seed * 100 + i)) for i in range(2 if chk.tier == "quick" else 12)]:
+        w = os.path.join(WORK, "c16hdr", chk.tier, name)
+        em = emit.emit(model)
+        r = bgrun.run_tool(binary, w, em.text, config=None)
+        if r["rc"] != 0 or not r["text"]:
+            chk.incon("cglue-bindgen failed on %s: %s" % (name, r["err"][-300:]))
+            continue
+        res = bgrun.drive(w, em, model, r["out_path"], r["text"])
+        hv, k = res.get("helpers", ([], 0))
+        n += k
+        for sig, d in hv[:2]:
+            chk.violation("C16:" + sig, "header of %s: %s" % (name, d), dict(model=name))
+    chk.part("published-header-helpers", helper_cases=n)
+    chk.floor("header helper cases", n, 50)
+    return n
+
+
 def run(chk, replay=None):
     q = chk.tier == "quick"
     cdir = os.path.join(VERIF, "cview", "rs")
@@ -41,7 +65,8 @@ def run(chk, replay=None):
                 ops = 3000 if q else 100000
                 jobs.append(lambda exe=exe, seed=seed, ops=ops, part="c-driver-%s-%s" % (cc, lname): _one(chk, exe, seed, ops, part))
     rtrun.run_many(chk, jobs)
-    tot = sum(int(v.get("c_checks", 0)) for k, v in chk.parts.items() if k.startswith("c-driver"))
+    helper_cases = published_helpers(chk)
+    tot = sum(int(v.get("c_checks", 0)) for k, v in chk.parts.items() if k.startswith("c-driver")) + helper_cases
     ops = sum(int(v.get("ops", 0)) for k, v in chk.parts.items() if k.startswith("c-driver"))
     chk.coverage["evaluations"] = tot
     chk.coverage["distinct_nontrivial"] = ops
@@ -50,7 +75,9 @@ def run(chk, replay=None):
                             "(read, push from Rust, grow through reserve_fn and write from C, release either side, struct/u8/drop-tracked elements), callbacks (C-made consumed by Rust with every stop "
                             "position, struct argument, Rust-made invoked from C), iterators (Rust-made advanced from C to the end and beyond, C-made consumed by Rust), option/result tags and "
                             "payload offsets (both directions), object container; sizeof/alignof of every declaration vs Rust; x {gcc, clang} x {debug, release (, randomized repr(Rust) layout)} "
-                            "under ASan+UBSan. evaluations = C-side assertions executed; distinct = operations")
+                            "under ASan+UBSan; iterators over boxed items with an output-only slot that holds a forged box with a counting release function between items; "
+                            "callbacks/iterators built with the helper macros of the processed header (COLLECT_CB for 0..1000 items, COLLECT_CB_INTO_ARR, COUNT_CB, BUF_ITER_SPEC). "
+                            "evaluations = C-side assertions executed; distinct = operations")
     chk.floor("C assertions executed", tot, 20000)
     chk.floor("driver builds (compiler x library build)", built, 4)
     chk.assumptions += ["cview/cglue_rt.h is hand-written from the property statement and cross-checked against examples/pregen-headers/bindings.h",
